@@ -350,13 +350,19 @@ def read_headers(sock: socket.socket) -> tuple:
 
     while True:
         line = recv_line(sock)
-        line = line.decode("utf-8").strip()
+        try:
+            line = line.decode("utf-8").strip()
+        except UnicodeDecodeError:
+            raise WebSocketException("Invalid header: not valid UTF-8")
         if not line:
             break
         trace(line)
         if not status:
             status_info = line.split(" ", 2)
-            status = int(status_info[1])
+            try:
+                status = int(status_info[1])
+            except (IndexError, ValueError):
+                raise WebSocketException(f"Invalid status line: {line[:80]!r}")
             if len(status_info) > 2:
                 status_message = status_info[2]
         else:
